@@ -70,9 +70,9 @@ fn c08() -> Monitor {
 /// and acknowledges what it likes: sequence space never acknowledged obliges the socket to a deadline)
 fn c02() -> Monitor {
     let mut m = tcp_pair::monitor_c02();
-    m.parts.push(Part { name: "scripted-peer", cases: |c| c.n(10_000, 300_000), f: tcp_peer::c02_peer_case });
+    m.parts.push(Part { name: "scripted-peer", cases: |c| c.n(30_000, 600_000), f: tcp_peer::c02_peer_case });
     let mut floors: Vec<(&'static str, u64)> = m.floors.to_vec();
-    floors.push(("owed_retransmission_checks", 50_000));
+    floors.push(("owed_retransmission_checks", 200_000));
     m.floors = Box::leak(floors.into_boxed_slice());
     m.rule = Box::leak(format!("{} Scripted-peer part: one socket against a consistent but unhelpful peer (windows that shrink to zero and reopen, arbitrary acceptable ACK numbers, lost segments); (P) after every egress pass: sequence space the socket put on the wire (SYN, data, FIN) that no ACK number the peer ever sent covers implies Interface::poll_at is Some.", m.rule).into_boxed_str());
     m
